@@ -161,6 +161,10 @@ def r19_5(ctx: Ctx):
                     n += 1
                     v = x.value
                     bad = None
+                    if isinstance(v, (ast.IfExp, ast.BoolOp)):
+                        inner = [c for c in ast.walk(v) if isinstance(c, ast.Call) and (norm(c.func) == "open" or norm(c.func).endswith(".open"))]
+                        if inner:
+                            bad = "an open file"
                     if isinstance(v, ast.GeneratorExp):
                         bad = "a generator expression"
                     elif isinstance(v, ast.Call):
